@@ -38,8 +38,16 @@ Record kcfg := mk_kcfg {
   c_est_threshold : Z;           (* Duration bits *)
   c_diff_bound : Z;              (* usize *)
   c_stat_bound : Z;              (* usize *)
-  c_peer_factor : float
+  c_peer_factor : float;
+  c_f24 : bool                   (* MODEL ONLY, not a field of KalmanConfiguration: which kalman.rs is modelled.
+                                    false = the code as it is today; true = the code after the proposed F24 patch
+                                    (.cache/scratch-filter/f24.diff: singular innovation covariance ignored,
+                                    BaseFilter::drop_if_invalid after every change of an estimate, wander bounded).
+                                    Cases get [impl_f24_fixed]; theorems state which value they are about. *)
 }.
+
+(* the /repo the correspondence runs against: flip to [true] when f24.diff has been applied *)
+Definition impl_f24_fixed : bool := true.
 
 Record meas := mk_meas {
   m_time : Z;                    (* Time bits *)
@@ -95,6 +103,10 @@ Section Arith.
   Definition d_from_seconds (s : float) : outcome Z := dur_from_seconds dbg s.
 End Arith.
 
+(* f64::min (IEEE minNum) *)
+Definition fmin (x y : float) : float :=
+  if is_nan x then y else if is_nan y then x else if y <. x then y else x.
+
 (** ---- matrices (matrix.rs): rows of entries ---- *)
 Definition mat := list (list float).
 Definition ment (m : mat) (i j : nat) : float := nth j (nth i m []) fzero.
@@ -144,6 +156,7 @@ Definition c_31 : float := Eval vm_compute in f_of_Z_scaled 31 0.
 Definition c_3 : float := Eval vm_compute in f_of_Z_scaled 3 0.
 Definition c_4 : float := Eval vm_compute in f_of_Z_scaled 4 0.
 Definition c_10 : float := Eval vm_compute in f_of_Z_scaled 10 0.
+Definition c_max_estimate : float := Eval vm_compute in f_of_Z_scaled (10 ^ 18) 0.   (* MAX_ESTIMATE = 1e18 (F24 patch) *)
 
 Definition est_taken (e : estimator) : list float := firstn (Z.to_nat (e_fill e)) (e_data e).
 Definition est_mean (e : estimator) : float := fsum (est_taken e) /. c_32.
@@ -266,11 +279,28 @@ Section Inner.
     let '(prediction, uncertainty) := inner_predict f h in
     let difference := msub [[z]] prediction in
     let difference_covariance := madd uncertainty [[variance]] in
-    let inv : mat := [[fone /. ment difference_covariance 0 0]] in
+    let p := fone /. ment difference_covariance 0 0 in
+    (* F24 patch: `if !(precision > 0.0 && precision.is_finite()) { return; }` *)
+    if c_f24 cfg && negb ((fzero <. p) && is_fin p) then f
+    else
+    let inv : mat := [[p]] in
     let update_strength := mmul (mmul (i_unc f) (mtranspose h)) inv in
     mk_inner (madd (i_state f) (mmul update_strength difference))
              (msymmetrize (mmul (msub munit3 (mmul update_strength h)) (i_unc f)))
              (i_time f).
+
+  (* F24 patch: InnerFilter::is_valid / BaseFilter::drop_if_invalid (identity on the code as it is today) *)
+  Definition inner_valid (f : inner) : bool :=
+    forallb (forallb is_fin) (i_state f) && forallb (forallb is_fin) (i_unc f)
+    && (fabs (ment (i_state f) 0 0) <=. c_max_estimate)
+    && (fabs (ment (i_state f) 2 0) <=. c_max_estimate).
+  Definition base_check (b : option inner) : option inner :=
+    if c_f24 cfg then
+      match b with
+      | Some f => if inner_valid f then Some f else None
+      | None => None
+      end
+    else b.
 
   Definition inner_freq_steer (f : inner) (steer : float) (time : Z) (wander : float) : outcome inner :=
     let! f' := inner_progress f time wander in
@@ -285,10 +315,11 @@ Section Inner.
   (* BaseFilter = option inner *)
   Definition base_progress (b : option inner) (time : Z) (wander : float) : outcome (option inner) :=
     match b with
-    | Some f => let! f' := inner_progress f time wander in Ok (Some f')
-    | None => Ok (Some (inner_new cfg fzero time))
+    | Some f => let! f' := inner_progress f time wander in Ok (base_check (Some f'))
+    | None => Ok (base_check (Some (inner_new cfg fzero time)))
     end.
   Definition base_absorb_offset (b : option inner) (h : mat) (z variance : float) : option inner :=
+    base_check
     match b with
     | Some f =>
         if fabs (z -. ment (i_state f) 0 0) >. dur_seconds (c_step_threshold cfg)
@@ -297,6 +328,7 @@ Section Inner.
     | None => None
     end.
   Definition base_absorb_peer (b : option inner) (z variance : float) : option inner :=
+    base_check
     match b with
     | Some f => Some (inner_absorb f z H_PEER variance)
     | None => None
@@ -304,12 +336,12 @@ Section Inner.
   Definition base_freq_steer (b : option inner) (steer : float) (time : Z) (wander : float)
     : outcome (option inner) :=
     match b with
-    | Some f => let! f' := inner_freq_steer f steer time wander in Ok (Some f')
-    | None => Ok (Some (inner_new cfg fzero time))
+    | Some f => let! f' := inner_freq_steer f steer time wander in Ok (base_check (Some f'))
+    | None => Ok (base_check (Some (inner_new cfg fzero time)))
     end.
   Definition base_offset_steer (b : option inner) (steer : float) : outcome (option inner) :=
     match b with
-    | Some f => let! f' := inner_offset_steer f steer in Ok (Some f')
+    | Some f => let! f' := inner_offset_steer f steer in Ok (base_check (Some f'))
     | None => Ok None
     end.
 End Inner.
@@ -418,7 +450,11 @@ Section Kalman.
       else s2 in
     let s4 :=
       if h8 <? k_score s3
-      then mk_kstate (k_run s3) (k_wan s3) 0 (k_wander s3 *. c_4) (k_wme s3) (k_est s3) (k_cur s3) (k_near s3)
+      then mk_kstate (k_run s3) (k_wan s3) 0
+                     (if c_f24 cfg   (* F24 patch: (wander * 4.0).min(sqr(max_freq_offset * 1e-6)) *)
+                      then fmin (k_wander s3 *. c_4) (fsqr (c_max_freq_offset cfg *. c_1em6))
+                      else k_wander s3 *. c_4)
+                     (k_wme s3) (k_est s3) (k_cur s3) (k_near s3)
       else s3 in
     Ok s4.
 
@@ -478,8 +514,8 @@ Section Kalman.
     let* r := mcall (StepClock d) in
     match r with
     | Some _ =>
-        let* run := mlift (base_offset_steer dbg (k_run s) (-. offset)) in
-        let* wan := mlift (base_offset_steer dbg (k_wan s) (-. offset)) in
+        let* run := mlift (base_offset_steer dbg cfg (k_run s) (-. offset)) in
+        let* wan := mlift (base_offset_steer dbg cfg (k_wan s) (-. offset)) in
         mret (set_filters s run wan)
     | None => mret s
     end.
@@ -533,7 +569,7 @@ Section Kalman.
         match m_peer m with
         | Some pd =>
             let* v := mlift (variance_factor s5) in
-            mret (set_run s5 (base_absorb_peer (k_run s5) (dur_seconds pd) v))
+            mret (set_run s5 (base_absorb_peer cfg (k_run s5) (dur_seconds pd) v))
         | None => mret s5
         end in
       kalman_steer s6.
